@@ -496,6 +496,20 @@ def run_server_restart(w, r, rng):
             r.inconclusive.append('server-restart phase: the node did not come up with both interfaces')
             return
         first = srv.discovery
+        # while the node goes down (restart or shutdown): as soon as an interface has stopped listening, nobody announces its port
+        closing = []
+
+        def probing(iface_, uri_):
+            orig = iface_.shutdown
+
+            def shutdown_and_probe():
+                orig()
+                p_ = int(str(uri_).rsplit(':', 1)[-1].strip('/'))
+                if wait_for(lambda: not is_secop_port(p_), 3):
+                    closing.append((p_, ask()))
+            iface_.shutdown = shutdown_and_probe
+        for uri_, iface_ in list(srv.interfaces.items()):
+            probing(iface_, uri_)
         ports = ask()
         r.count('server_discovery_answers_checked', len(ports))
         bad = [p_ for p_ in ports if not is_secop_port(p_)]
@@ -503,6 +517,12 @@ def run_server_restart(w, r, rng):
             r.violation('C19/server/announced-port-not-listening/fresh-node', f'answers carry {ports}, not listening: {bad}', case)
             return
         srv.restart()
+        for p_, answers in closing:
+            r.count('discovery_probes_while_the_node_goes_down')
+            if p_ in answers:
+                r.violation('C19/server/announced-port-not-listening/while-going-down', f'the interface on port {p_} had stopped listening (restart in progress), a '
+                            f'discovery request sent then was answered with the ports {answers}', case)
+                return
         if not wait_for(lambda: srv.discovery is not first and is_secop_port(port1), 60):
             r.inconclusive.append('server-restart phase: the node did not come back after the restart')
             return
